@@ -39,18 +39,18 @@ THEOREMS = {
     'C08_append': 'append puts the text inside the outermost markup of the receiver, markup stays attached',
     'C08_join': 'join acts as str.join on the pairs',
     'C08_len': 'len is the number of pairs, str their characters',
-    'C08_slice': 'text[i:j] is the Python slice of the string of pairs for ALL integers i, j (and missing bounds); markup stays attached',
+    'C08_slice': 'text[i:j] is the Python slice of the string of pairs for ALL integers i, j (stated against pySlice) and for missing bounds (against Flat.slice = the plain drop/take formula RT.strSlice, a Model helper reused by the spec); markup stays attached; the class is kept; the slice of an object is an object',
     'C08_index': 'text[i] is the one-pair slice, IndexError exactly when out of range',
-    'C08_case': 'upper/lower (ASCII case mapping) act pointwise, keep every markup stack, never change protected text; they commute with slicing and concatenation as objects',
+    'C08_case': 'upper/lower with the ASCII case mapping act pointwise, keep every markup stack, never change protected text; on objects they commute with slicing and concatenation as objects (any case mapping: C08_case_full; U+03A3 outside the model)',
     'C08_capfirst': 'capfirst = self[:1].upper() + self[1:] on the pairs; Protected untouched',
     'C08_capitalize': 'capitalize = self[:1].upper() + self[1:].lower() on the pairs; Protected untouched',
-    'C08_add_period': 'add_period() appends a period inside the outermost markup iff the text is non-empty and does not end in a terminator',
-    'C08_split': 'split at a one-character separator is the list split at the unprotected occurrences; split() is the non-empty pieces of the list split at unprotected white space (str.split()), however the white space is spread over parts; protected text and symbols are never split; join . split keeps the characters',
-    'C08_prefix_suffix_contains': 'startswith / endswith / in are sound for the string of pairs (a reported match is spelled inside one markup)',
+    'C08_add_period': 'add_period() on objects appends a period inside the outermost markup iff the text is non-empty and does not end in a terminator',
+    'C08_split': 'split at a one-character separator is the list split at the unprotected occurrences; split() with keep_empty_parts false (the default; with True: not proved, see C08_matching_neg) is the non-empty pieces of the list split at unprotected white space (str.split()), however the white space is spread over parts; protected text and symbols are never split; join . split keeps the characters',
+    'C08_prefix_suffix_contains': 'startswith / endswith / in are SOUND for the string of pairs in the part-wise reading only (a reported match is spelled inside one markup); a match straddling a markup boundary is not found (C08_partwise_neg); exactness for the part-wise reading: C08_matching_partial',
     'C08_partwise_neg': 'limit (documented behaviour): a multi-character separator / prefix / suffix / substring that straddles a markup boundary is not matched -- concrete witnesses; this is why split is proved for one-character separators and white space and startswith/endswith/in as soundness',
-    'C08_isalpha': 'isalpha (ASCII letters) iff non-empty and every pair an alphabetic character',
+    'C08_isalpha': 'isalpha (ASCII letters), on objects: iff non-empty and every pair an alphabetic character',
     'C08_render': 'rendering with the tracing backend returns the string of pairs, for the object built from any tree',
-    'C08_history': 'every finite sequence of operations applied on top of one another equals the same sequence of list operations on the string of pairs (induction over the history; normal form is an invariant) -- ASCII case mapping; C08_history_full: any case mapping',
+    'C08_history': "every finite sequence of COVERED operations (hypothesis op.Covered: all except split at a separator of more than one character and split(None, keep_empty_parts=True)) with object operands, applied on top of one another to an object, equals step by step the same list operations on the string of pairs -- ASCII case mapping; the invariant 'normal form' is stated in C08_history_normal",
     'C08_tables_flags': 'regenerated constants: whitespace_re and delimiter_re are compiled with re.UNICODE only (\\s is the Unicode white space of the model), delimiter_re is ([\\s\\-])',
     'C08_unicode_ascii_bridge': 'the ASCII fragment of the interpreter\'s upper / lower / isalpha tables is the ASCII case mapping the other theorems were first stated for',
     'C08_unicode_tables': 'what the regenerated tables say about the witness characters: é É ǅ Cyrillic map one to one, ß ŉ İ have longer images, lower keeps ß, 毛 is a caseless letter',
@@ -60,12 +60,16 @@ THEOREMS = {
     'C08_capfirst_capitalize_full': 'capfirst / capitalize for any case mapping: self[:1].upper() + self[1:](.lower()) on the pairs; Protected untouched; results are objects',
     'C08_isalpha_full': 'isalpha for any letter test (the interpreter\'s str.isalpha table): non-empty and every pair a letter',
     'C08_add_period_any': 'add_period(period) for ANY period (str, Text, Tag ...): appended inside the outermost markup iff the text is non-empty and not terminated',
-    'C08_eq_other': 'equality with a value that is not a rich text is False (== is total)',
+    'C08_eq_other': "[model wiring] eqVal is DEFINED as False on a non-rich-text value and as eq on a text (the proof is rfl); that == with 'a' / None / 5 is False in the code is carried by the correspondence check (eq_other operations on every tree)",
     'C08_matching_partial': 'startswith / endswith / in on objects are EXACT for the part-wise reading (a match spelled inside one markup: soundness + completeness) and sound for the Python string operation on the characters',
     'C08_matching_neg': 'the recorded finding C08-partwise-matching on witnesses: a prefix / suffix / substring / separator / white-space run that straddles a markup boundary is found by the string operation, not by the code',
     'C08_split_regex': 'split at the compiled pattern textutils.delimiter_re ([\\s\\-]): the list split of the pairs at the unprotected white-space characters and hyphens, separators kept as pieces; pieces keep the class, are objects, and glued together spell the text; Symbol / Protected never split',
     'C08_abbreviate': 'abbreviate() acts on the pairs as the composition of split-at-delimiters / isalpha / first pair / add_period / join; protected text is never abbreviated apart; the result is an object',
-    'C08_history_full': 'histories over all operations (add_period with any period, abbreviate, split at delimiter_re included) for any case mapping, in particular the Unicode one where texts change their length',
+    'C08_history_full': 'histories over COVERED operations (hypothesis op.Covered: add_period with any period, abbreviate, split at delimiter_re included; excluded: split at a multi-character separator, split(None, keep_empty_parts=True), split at the run pattern -+) with object operands, for any case mapping, in particular the Unicode one where texts change their length',
+    'C08_normal_preserved': 'normal form (no empty part, no nested Text, no adjacent similar parts) is preserved by +, append and join of objects, and every piece of split at ANY separator (multi-character ones included) is an object; for slice / case / capfirst / capitalize / add_period / abbreviate it is part of the respective theorem',
+    'C08_normal_preserved_nonvacuous': "non-vacuity: two em tags side by side are not an object as a raw tree, but +, append, join of the two objects (and the pieces of a split at ', ') are objects",
+    'C08_history_normal': 'normal form is an invariant of EVERY history whose operands are objects -- also over the operations not covered by C08_history / C08_history_full -- for the ASCII and for any case mapping: every text a step returns is an object',
+    'C08_history_normal_nonvacuous': "non-vacuity: a history with object operands containing a split at the two-character separator ', ' (not Covered): every outcome is an object",
 }
 LEVEL_TEXT = ('Machine-checked proofs (Lean 4) over an executable model that follows pybtex/richtext.py method by method: the constructor and '
               'every operation (+, append, join, slicing for ALL integer bounds, indexing, upper/lower, capfirst, capitalize, add_period(period) for any period, '
@@ -73,7 +77,9 @@ LEVEL_TEXT = ('Machine-checked proofs (Lean 4) over an executable model that fol
               '(atom, markup-stack) pairs exactly as the corresponding list operation; upper / lower / capitalize / capfirst / isalpha are proved for ANY case '
               'mapping whose images are lists of characters and are run with the interpreter\'s own Unicode tables (regenerated on every run: ß -> SS keeps its '
               'markup on both characters); normal forms are unique, so == coincides with "same class and same string of pairs" and '
-              'grouping/nesting never matters; all of it lifted to arbitrary finite operation histories by induction.  The model is tied to '
+              'grouping/nesting never matters; all of it lifted by induction to arbitrary finite histories of COVERED operations (everything except split at a '
+              'multi-character separator, split(None, keep_empty_parts=True) and split at the run pattern -+); normal form is an invariant of EVERY '
+              'history, covered or not (C08_history_normal).  The model is tied to '
               'the code by a correspondence check that compares, for every tree of an exhaustive small scope x every slice/index/operation '
               'and for random histories, the normal-form tree, the rendering with a tracing backend, str, len and every result.')
 LEVEL_NOTE = ('Trusted: Lean kernel; axioms propext/Classical.choice/Quot.sound only; the model (Model/RichText.lean, Model/RichTextU.lean) corresponds to the code only as '
@@ -84,7 +90,8 @@ LEVEL_NOTE = ('Trusted: Lean kernel; axioms propext/Classical.choice/Quot.sound 
               'which differs from the Python string operation on the characters -- recorded finding C08-partwise-matching, reported as KNOWN-FINDING. '
               'Case laws that relate case and slicing hold on the decidable domain "every unprotected character has one-character images" (C08_case_slice_partial) and fail '
               'outside it exactly as for Python strings (C08_case_slice_neg). "operands are never modified" is checked on the implementation only '
-              '(the model is pure). Outside the model: U+03A3 (str.lower chooses between σ and ς by context: the generators never emit Σ σ ς), the deprecated tag alias emph, '
+              '(the model is pure). C08_eq_other is model wiring (eqVal is defined that way; carried by the correspondence check). Flat.slice reuses the Model '
+              'helper RT.strSlice (the plain drop/take formula; C08_slice also states the slice against pySlice for concrete bounds). Outside the model: U+03A3 (str.lower chooses between σ and ς by context: the generators never emit Σ σ ς), the deprecated tag alias emph, '
               'tag names / URLs given as Text, slices with a step, the deprecated pre-0.19 methods.')
 RULE = ('one evaluation = one rich-text tree with a list of at most 64 operations (fan: each applied to the tree; history: applied on top of '
         'one another); a slicetab operation evaluates every slice (i, j) in [-n-2, n+2]^2 plus the None bounds; '
